@@ -144,7 +144,9 @@ def runner_cases(draw):
     # after the first nw submissions, each completion consumed may be followed by one submission (scheduler pattern)
     # or several completions are awaited first
     lag = draw(st.lists(st.integers(0, 2), min_size=nunits, max_size=nunits))
-    return {"nw": nw, "units": units, "lag": lag}
+    # mode "burst": everything is submitted at once (more units than workers wait in the runner's queue) and stop() is called
+    # while work is outstanding; the results are then taken from the futures
+    return {"nw": nw, "units": units, "lag": lag, "mode": draw(st.sampled_from(["scheduler", "scheduler", "burst", "burst-consume-some"]))}
 
 
 def _runner_child(c):
@@ -171,12 +173,22 @@ def _runner_child(c):
         fmap[id(f)] = u["id"]
         futs.add(f)
 
-    for _ in range(min(c["nw"], len(pending))):
+    mode = c.get("mode", "scheduler")
+    if mode != "scheduler":
+        # submit_work() itself takes 0.05 s: units must outlast the submission phase for work to be queued when stop() is called
+        pending = [dict(u, dur=max(u["dur"], 0.3)) for u in pending]
+    for _ in range(min(c["nw"], len(pending)) if mode == "scheduler" else len(pending)):
         submit()
     deadline = time.time() + 60
     outstanding = len(fmap)
     k = 0
-    while outstanding and time.time() < deadline:
+    if mode == "burst":
+        outstanding_at_stop, outstanding = outstanding, 0
+    elif mode == "burst-consume-some":
+        outstanding_at_stop = outstanding // 2
+    else:
+        outstanding_at_stop = 0
+    while outstanding > outstanding_at_stop * (mode == "burst-consume-some") and time.time() < deadline:
         time.sleep(0.01 * c["lag"][k % len(c["lag"])])
         f = futs.as_completed()
         if f is None:
@@ -193,17 +205,32 @@ def _runner_child(c):
         if pending:
             submit()
             outstanding += 1
-    if outstanding and time.time() >= deadline:
+    if mode == "scheduler" and outstanding and time.time() >= deadline:
         probs.append(("C17:runner:results-not-delivered-in-time", f"{outstanding} outstanding after 60 s"))
     t0 = time.time()
     stopper = threading.Thread(target=runner.stop, daemon=True)
     stopper.start()
-    stopper.join(20)
+    stopper.join(20 if mode == "scheduler" else 60)
     if stopper.is_alive():
         probs.append(("C17:runner:stop-does-not-return", "20 s"))
     elif runner._thread.is_alive():
         probs.append(("C17:runner:event-loop-thread-alive-after-stop", ""))
     stop_s = time.time() - t0
+    if mode != "scheduler" and not stopper.is_alive():
+        # stop() returned with work submitted before it: every such unit has run and its future holds its own outcome
+        delivered = {g[0] for g in got}
+        for f in list(getattr(futs, "_futures", [])):
+            uid = fmap.get(id(f))
+            if uid in delivered:
+                continue
+            if not f.done():
+                probs.append(("C17:runner:stop-returned-with-a-submitted-unit-unfinished", f"unit {uid}"))
+                continue
+            try:
+                r = f.result()
+                got.append((uid, "ok", r.get("id"), r.get("out")))
+            except Exception as exc:  # noqa: BLE001
+                got.append((uid, "exc", type(exc).__name__, str(exc)))
     # oracle
     ids = [g[0] for g in got]
     if len(set(ids)) != len(ids):
@@ -225,7 +252,7 @@ def _runner_child(c):
         elif g[1] != "ok" or g[2] != u["id"] or g[3] != u["id"] * 7 + 1:
             probs.append(("C17:runner:wrong-result-delivered", f"unit {u['id']}: {g}"))
     # pool processes are only reaped at interpreter exit (ProcessPoolExecutor); reported, not judged
-    pool_alive = len([p for p in getattr(runner._executor, "_processes", {}).values() if p.is_alive()])
+    pool_alive = len([p for p in (getattr(runner._executor, "_processes", None) or {}).values() if p.is_alive()])
     try:
         runner._executor.shutdown(wait=False, cancel_futures=True)
     except Exception:  # noqa: BLE001
